@@ -4115,14 +4115,22 @@ impl Collection {
                     // would keep the first `limit` ids in *key* order, which the
                     // caller's ascending-id trim then mistakes for a page of the
                     // full result. Collect every match, like `And`/`Or`/`Not`.
+                    // Only live ids: a posting is published before the
+                    // document write of an `add` is acknowledged (and survives
+                    // on a handle a cancelled `add` poisoned), while `Not`,
+                    // `_id` predicates, `contains` and `get` answer from the id
+                    // set. Unfiltered, `F` matched an id that
+                    // `And([F, _id >= 0])` and `Not(Not(F))` did not.
+                    let live = self.doc_ids_index.read();
                     index.try_range_query_ids(filter, order.is_descending(), |ids| {
                         for id in ids {
-                            if candidates.is_none_or(|s| s.contains(id)) {
+                            if candidates.is_none_or(|s| s.contains(id)) && live.contains(id) {
                                 rt.push(*id);
                             }
                         }
                         true
                     })?;
+                    drop(live);
                     result = rt.into();
                     Ok(result)
                 } else {
